@@ -49,6 +49,20 @@ theorem comb_outs {g : G} {vals : List GVal} (hv : ∀ x ∈ vals, Outs g x) (hn
     ∀ x ∈ (comb vals r t).1, Outs g x :=
   fun x hx => hv x (comb_mem hne r t x hx)
 
+theorem allList_sound {step : G → Tape → Res} (hs : StepSound step) {tmpl : G} {ph m n : Nat} {t : Tape}
+    {v : GVal} {g' : G} {t' : Tape} (h : allList step tmpl n t = .yield v g' t') :
+    Outs (.allT tmpl ph m) v ∧ ∀ w, Outs g' w → Outs (.allT tmpl ph m) w := by
+  simp only [allList] at h
+  split at h
+  · cases h
+  · rename_i vals t2 hne htk
+    simp only [Res.yield.injEq] at h
+    obtain ⟨rfl, rfl, rfl⟩ := h
+    have hv := take_outs hs htk
+    exact ⟨⟨_, comb_outs hv hne _ _, Or.inl rfl⟩, fun w hw => by simpa [Outs] using hw⟩
+  · cases h
+  · cases h
+
 theorem pull_zero (g : G) (t : Tape) : pull 0 g t = .starved := rfl
 
 set_option maxHeartbeats 1600000 in
@@ -282,27 +296,17 @@ theorem pull_sound : ∀ fuel, StepSound (pull fuel) := by
           have hv := take_outs ih htk
           have hne' : vals ≠ [] := hne
           split at h
-          · rename_i s hs
-            simp only [Res.yield.injEq] at h
+          · simp only [Res.yield.injEq] at h
             obtain ⟨rfl, rfl, rfl⟩ := h
-            refine ⟨⟨_, ?_, Or.inr (Or.inr (mkSet_ok hs))⟩, fun w hw => by simpa [Outs] using hw⟩
+            refine ⟨⟨_, ?_, Or.inr (Or.inr rfl)⟩, fun w hw => by simpa [Outs] using hw⟩
             intro x hx
             exact comb_outs hv hne' _ _ x (mem_dedup hx)
-          · cases h
+          · exact allList_sound ih h
         · cases h
         · cases h
       | k + 3 =>
         simp only [pull] at h
-        split at h
-        · cases h
-        · rename_i vals t2 hne htk
-          simp only [Res.yield.injEq] at h
-          obtain ⟨rfl, rfl, rfl⟩ := h
-          have hv := take_outs ih htk
-          have hne' : vals ≠ [] := hne
-          exact ⟨⟨_, comb_outs hv hne' _ _, Or.inl rfl⟩, fun w hw => by simpa [Outs] using hw⟩
-        · cases h
-        · cases h
+        exact allList_sound ih h
     | anyT tmpl =>
       simp only [pull] at h
       split at h
@@ -324,10 +328,9 @@ theorem pull_sound : ∀ fuel, StepSound (pull fuel) := by
       | cons a as =>
         simp only [pull] at h
         split at h
-        · rename_i s hs
-          simp only [Res.yield.injEq] at h
+        · simp only [Res.yield.injEq] at h
           obtain ⟨rfl, rfl, rfl⟩ := h
-          refine ⟨⟨_, dedup_ne_nil (comb_ne_nil (a :: as) (by decide) t), ?_, mkSet_ok hs⟩, fun w hw => by simp [Outs] at hw⟩
+          refine ⟨⟨_, dedup_ne_nil (comb_ne_nil (a :: as) (by decide) t), ?_, rfl⟩, fun w hw => by simp [Outs] at hw⟩
           intro x hx
           exact comb_mem (by simp) _ _ x (mem_dedup hx)
         · cases h
@@ -337,21 +340,13 @@ theorem pull_sound : ∀ fuel, StepSound (pull fuel) := by
       · rename_i vals t2 htk
         have hv := take_outs ih htk
         split at h
-        · rename_i ys hs
-          have hys := mkSet_ok hs
-          simp only [GVal.set.injEq] at hys
-          split at h
-          · simp only [Res.yield.injEq] at h
-            obtain ⟨rfl, rfl, rfl⟩ := h
-            refine ⟨⟨_, ?_, rfl⟩, fun w hw => hw⟩
-            intro x hx
-            have := mem_sortKey hx
-            rw [hys] at this
-            exact hv x (mem_dedup this)
-          · obtain ⟨h1, h2⟩ := ih _ _ _ _ _ h
-            exact ⟨h1, h2⟩
-        · cases h
-        · cases h
+        · simp only [Res.yield.injEq] at h
+          obtain ⟨rfl, rfl, rfl⟩ := h
+          refine ⟨⟨_, ?_, rfl⟩, fun w hw => hw⟩
+          intro x hx
+          exact hv x (mem_dedup (mem_sortKey hx))
+        · obtain ⟨h1, h2⟩ := ih _ _ _ _ _ h
+          exact ⟨h1, h2⟩
       · cases h
       · cases h
     | allF tmpl =>
@@ -372,18 +367,17 @@ theorem pull_sound : ∀ fuel, StepSound (pull fuel) := by
     | setOfF tmpl =>
       simp only [pull] at h
       split at h
-      · cases h
-      · rename_i vals t2 hne htk
+      · rename_i vals t2 htk
         have hv := take_outs ih htk
-        have hne' : vals ≠ [] := hne
         split at h
-        · rename_i s hs
+        · cases h
+        · rename_i hv' hne
           simp only [Res.yield.injEq] at h
           obtain ⟨rfl, rfl, rfl⟩ := h
-          refine ⟨⟨_, dedup_ne_nil (comb_ne_nil vals (by decide) t2), ?_, mkSet_ok hs⟩, fun w hw => by simp [Outs] at hw⟩
+          have hsub : ∀ x ∈ vals.filter hashable, Outs tmpl x := fun x hx => hv x (List.mem_filter.mp hx).1
+          refine ⟨⟨_, dedup_ne_nil (comb_ne_nil _ (by decide) t2), ?_, rfl⟩, fun w hw => by simp [Outs] at hw⟩
           intro x hx
-          exact comb_outs hv hne' _ _ x (mem_dedup hx)
-        · cases h
+          exact comb_outs hsub (by intro hc; exact hne hc) _ _ x (mem_dedup hx)
       · cases h
       · cases h
 
